@@ -1,6 +1,7 @@
 package main
 
 import (
+	"os"
 	"fmt"
 	"strings"
 	"sync"
@@ -209,6 +210,9 @@ func checkC06(c *Check) {
 		maxLen, reps = 7, 2
 	}
 	docs := genCorpus(c, maxLen, "corpus")
+	// lists long enough to outgrow a slice's first capacity steps, with markers and references
+	// (forward and backward) at every position
+	docs = append(docs, genCorpusFrom(c, "AlphaRefs", "FilterRefs", "<<EvBD, EvVer(0), EvList>>", map[string]int{"quick": 8, "thorough": 9}[c.Tier], "reference corpus")...)
 	mcfg := configuration.New()
 	mcfg.Iterator.RecursionSupport = true
 	var mu sync.Mutex
@@ -247,6 +251,9 @@ func checkC06(c *Check) {
 				continue
 			}
 			want := strings.Join(sortMapsInTokens(origToks), " ")
+			if os.Getenv("VERIF_C06_DEBUG") != "" && strings.Contains(evsString(evs), "Int=") && strings.Contains(evsString(evs), "ReferenceLocal#\"a\" Marker#\"a\"") {
+				fmt.Println("DEBUG", format, evsString(evs), "WANT", want)
+			}
 			key := fmt.Sprint(abs.H) + evsString(evs) + format
 			c.Count(key, len(evs) > 4)
 			var v interface{}
